@@ -267,7 +267,7 @@ fn walk_triggers(data: &[u8]) -> bool {
         let idx0 = u64::from_le_bytes(data[0..8].try_into().unwrap());
         let size0 = u64::from_le_bytes(data[8..16].try_into().unwrap());
         if idx0 == 0 {
-            if size0 < 8 || end < 16 + size0 || end < 24 {
+            if size0 < 8 || end < size0.saturating_add(16) || end < 24 {
                 return false;
             }
             version = u64::from_le_bytes(data[16..24].try_into().unwrap());
